@@ -79,7 +79,9 @@ pub fn replay(fmt: &str, args: &[String]) {
 }
 
 // ---------------------------------------------------------------- recorders --
-const SV_NUM: &[&str] = &["0", "1", "2", "9", "10", "11", "99", "100", "4294967295", "4294967296", "18446744073709551615", "18446744073709551614", "9223372036854775808"];
+const SV_NUM: &[&str] = &["0", "1", "2", "9", "10", "11", "99", "100", "4294967295", "4294967296", "18446744073709551615", "18446744073709551614", "9223372036854775808",
+    // beyond u64 (kept as text by the parser, still numeric identifiers): different lengths, adjacent values
+    "18446744073709551616", "99999999999999999999", "100000000000000000000", "100000000000000000001"];
 const SV_ID: &[&str] = &["alpha", "beta", "rc", "a", "A", "B", "a0", "a-", "-", "0a", "x-1", "Z9", "z", "aa", "ab"];
 
 fn sv_random(rng: &mut StdRng) -> String {
@@ -180,7 +182,9 @@ fn pep_random(rng: &mut StdRng) -> String {
         s.push('+');
         let n = rng.gen_range(1..4);
         let parts: Vec<&str> =
-            (0..n).map(|_| ["1", "01", "10", "a", "A", "b", "ab", "a1", "1a", "z", "0"][rng.gen_range(0..11)]).collect();
+            (0..n).map(|_| ["1", "01", "10", "a", "A", "b", "ab", "a1", "1a", "z", "0",
+                            // text parts that begin with a digit, of different lengths; numerals beyond u32
+                            "9z", "10a", "2x", "1x2", "7f3a", "12ab9c1", "0a", "99999999999", "100000000000", "4294967296", "4294967295", "099999999999"][rng.gen_range(0..23)]).collect();
         s += &parts.join(["." , "-", "_"][rng.gen_range(0..3)]);
     }
     s
